@@ -1,6 +1,8 @@
 //! Correspondence harness for engine `segtree` (properties C01, C02): drives the real
 //! `rlib_segtree::Segtree` with the six built-in items at `i64`, three `Combinator` nestings and the two exotic
-//! lawful items of `items.rs`, on operation histories `item ctor n v.. ; op ; op ; ...`.
+//! lawful items of `items.rs`, on operation histories `item ctor n v.. ; op ; op ; ...`; the six built-in items and two
+//! nestings also at unsigned / narrow element types with values at the types' extremes (`typed.rs`, item tokens
+//! `min:u8`, `mm:u32`, ...), and the trait constants of `rlib_num_traits` themselves (`const <type>`).
 //!
 //! raw  = `{:?}` of every returned item / answer + `{:?}` of every probe of a search / the `debug()` string
 //! view = observable value (`.v`, `(.v,.len)`, ...) of an `ask`; for a search: answer (or `nm` when the predicate is
@@ -14,8 +16,10 @@
 #[path = "../../common/mod.rs"]
 mod common;
 mod items;
+mod typed;
 use common::*;
 use items::*;
+use typed::*;
 use rlib_segtree::segtree_items::{Combinator, Max, MaxAdd, Min, MinAdd, Sum, SumAdd};
 use rlib_segtree::{Segtree, SegtreeItem};
 use std::cell::RefCell;
@@ -1114,9 +1118,45 @@ macro_rules! dispatch {
     };
 }
 
+/// the built-in items at element type `$t`
+macro_rules! dispatch_base {
+    ($t:ty, $base:expr, $f:ident, $($arg:expr),*) => {
+        match $base {
+            "min" => Some($f::<Min<$t>>($($arg),*)),
+            "max" => Some($f::<Max<$t>>($($arg),*)),
+            "sum" => Some($f::<Sum<$t>>($($arg),*)),
+            "minadd" => Some($f::<MinAdd<$t>>($($arg),*)),
+            "maxadd" => Some($f::<MaxAdd<$t>>($($arg),*)),
+            "sumadd" => Some($f::<SumAdd<$t>>($($arg),*)),
+            "mm" => Some($f::<TMM<$t>>($($arg),*)),
+            "smm" => Some($f::<TSMM<$t>>($($arg),*)),
+            _ => None,
+        }
+    };
+}
+
+macro_rules! dispatch_typed {
+    ($base:expr, $ty:expr, $f:ident, $($arg:expr),*) => {
+        match $ty {
+            "i8" => dispatch_base!(i8, $base, $f, $($arg),*),
+            "u8" => dispatch_base!(u8, $base, $f, $($arg),*),
+            "i32" => dispatch_base!(i32, $base, $f, $($arg),*),
+            "u32" => dispatch_base!(u32, $base, $f, $($arg),*),
+            "u64" => dispatch_base!(u64, $base, $f, $($arg),*),
+            "isize" => dispatch_base!(isize, $base, $f, $($arg),*),
+            "usize" => dispatch_base!(usize, $base, $f, $($arg),*),
+            _ => None,
+        }
+    };
+}
+
 fn run_case(line: &str) -> String {
     let parts: Vec<&str> = line.split(';').map(|p| p.trim()).collect();
     let hdr: Vec<&str> = parts[0].split_whitespace().collect();
+    if !hdr.is_empty() && hdr[0] == "const" {
+        // the trait constants of rlib_num_traits (what `Default for Min/Max/MinAdd/MaxAdd` and `SumAdd::new` are built from)
+        return if hdr.len() == 2 && parts.len() == 1 { const_line(hdr[1]).unwrap_or_else(|| INVALID.into()) } else { INVALID.into() };
+    }
     if hdr.len() < 3 {
         return INVALID.into();
     }
@@ -1124,7 +1164,12 @@ fn run_case(line: &str) -> String {
         Ok(n) if n <= 100_000 => n,
         _ => return INVALID.into(),
     };
-    dispatch!(hdr[0], run_history, hdr[1], n, &hdr[3..], &parts[1..]).unwrap_or_else(|| INVALID.into())
+    match hdr[0].split_once(':') {
+        None => dispatch!(hdr[0], run_history, hdr[1], n, &hdr[3..], &parts[1..]).unwrap_or_else(|| INVALID.into()),
+        Some((base, ty)) => {
+            dispatch_typed!(base, ty, run_history, hdr[1], n, &hdr[3..], &parts[1..]).unwrap_or_else(|| INVALID.into())
+        }
+    }
 }
 
 // ------------------------------------------------------------------------------------------------------
@@ -1524,6 +1569,39 @@ fn gen(args: &Args, emit: &mut dyn FnMut(String), st: &mut Stats) {
             emit(gen_one(item, &mut rng, &focus, st, true));
             st.bump("random_histories");
         }
+    }
+    // (2b) the built-in items at unsigned / narrow element types, elements / modifiers / thresholds at the types' extreme
+    //      values; every (item, type, mode) at least twice
+    let per = if thorough { 40 } else { 2 };
+    for base in BASES {
+        for ty in TYPES {
+            let sp = tspec(base, ty).expect("typed item");
+            let name = format!("{}:{}", base, ty);
+            for mode in 0..5usize {
+                for k in 0..per {
+                    let big = k % 8 == 7;
+                    let line = dispatch_typed!(base, ty, gen_typed, &name, sp, mode, &mut rng, &focus, st, big).expect("typed item");
+                    emit(line);
+                }
+            }
+        }
+    }
+    // (2c) the trait constants themselves, all twelve integer types
+    for ty in CONST_TYPES {
+        emit(format!("const {}", ty));
+        st.bump("trait_constant_lines");
+    }
+    // (2d) out-of-domain: histories on which the items' machine arithmetic overflows (the real call panics, the model's
+    //      overflow guard answers `S any`); the last one keeps every value inside the type and overflows the pending tag
+    for l in [
+        "minadd:u8 new 3 250 ; mod 0 2 10 ; ask 0 2",
+        "maxadd:i8 slice 2 100 -100 ; mod 0 1 100 ; ask 0 1",
+        "sumadd:u8 new 9 30 ; ask 0 8",
+        "sum:i8 slice 3 100 100 -100 ; ask 0 2",
+        "mm:i8 new 2 -100 ; mod 0 1 100 ; mod 0 1 100 ; ask 0 0",
+    ] {
+        emit(l.to_string());
+        st.bump("overflow_out_of_domain_lines");
     }
     // (3) out-of-domain stream: operations outside 0 <= l <= r < n (view `ood`: only the raw panic is compared with the
     //     model, as drift), empty constructors
